@@ -242,7 +242,7 @@ func (r *Runtime) math_round(call FunctionCall) Value {
 }
 
 func (r *Runtime) math_sign(call FunctionCall) Value {
-	arg := call.Argument(0)
+	arg := call.Argument(0).ToNumber() // the result for NaN and the zeros is the number, not the argument
 	num := arg.ToFloat()
 	if math.IsNaN(num) || num == 0 { // this will match -0 too
 		return arg
